@@ -35,6 +35,9 @@ PROPS = {
     "C09": {"count": {"quick": 4000, "thorough": 100000},
             "trusted": SOCK_TRUSTED + ["modelled, not verified: QByteArray::fromBase64 (Qt's lenient decoder), QByteArray::split(' '), QMap lookup; credentials are compared as UTF-8 bytes (the harness registers well-formed NUL-free text)"],
             "rule": "credential tables of <= 4 users (prefixes / case variants of each other, empty password, ':' in password) x Authorization values: valid, near misses (scheme case, two spaces, tab, trailing space, missing colon, stripped padding, junk inside the token, NUL / BOM / invalid UTF-8 in the payload, other users' passwords), repeated headers, random bytes; through BasicAuthMiddleware attached to a Handler on a Socket over SimTcp"},
+    "C14": {"count": {"quick": 3500, "thorough": 40000},
+            "trusted": ["modelled, not verified: QBuffer/QFile read/seek/pos/atEnd, QIODevice::write refusing a negative length, QTimer::singleShot(0) = one pending call per event-loop turn; the harness devices (MemSrc, SeqSrc, LogDest) stand for QFile / sockets"],
+            "rule": "exhaustive: sources of length <= L, every block size 1..len+1, no range and every (from,to) in [0,len+1] x [-1,len+1], left to run; stop() at every turn; then random contents (to 200 000 bytes), ranges, injected open/seek/read/write failures, sequential sources delivered in arbitrary pieces"},
     "C16": {"count": {"quick": 400, "thorough": 6000},
             "trusted": ["translated from the C++ on every run (tools/cxx2lean.py, clang-14 AST): Range::from/to/length/isValid/dataSize and the numeric constructor; bridge theorems QhttpBridge.Range prove them equal to the hand model",
                         "modelled, not verified: the string constructor (QRegExp ^(\\d*)-(\\d*)$, QString::trimmed, QString::toInt) for ASCII text, QString::number; validated by the exhaustive/boundary correspondence runs",
@@ -61,6 +64,8 @@ LEVEL = {
          "as C05."),
  "C09": ("Theorems: the middleware's verdict equals the property's reading (Basic in any case, one space, base64 of user:password cut at the first colon, exact registered pair) for every header value and table; base64 round trip; every refusal is one 401 with the realm challenge; tie: near-miss and random Authorization values through the real middleware.",
          "fromBase64 modelled (lenient decoder); QString conversion of credentials is covered by the round-trip guard in the repaired code."),
+ "C14": ("Theorems over the copier state machine for every source, block size >= 1 and range: left to run it writes exactly src[from..min to (len-1)] (termination of the block loop included), one completion after the last write; failures give error then one completion; after stop() nothing more is written or signalled; sequential sources in arbitrary pieces; tie: exhaustive small sources x blocks x ranges x stop points on the real QIODeviceCopier with instrumented devices.",
+         "devices are abstracted as byte strings with failure parameters; ranges on sequential sources are outside setRange()'s documented domain."),
  "C16": ("Theorems over Int (every offset and size): valid => 0<=from<=to<size, length, text; invalid => -1 and */size; valid iff one of the three shapes; string forms; copy/resize preserve bounds; the accessor code is regenerated from range.cpp on every run and bridge-proved equal to the model, and the compiled class is compared with the model on an exhaustive cube and on all short strings.",
          "string constructor modelled for ASCII text only; QRegExp/QString are Qt."),
 }
